@@ -4,8 +4,10 @@ Sessions p1 = parse(b); b2 = build(p1); p2 = parse(b2); b3 = build(p2) (C02Canon
 are recorded from the real library on random, boundary-biased, canonical and mutated inputs; TLC evaluates the clauses
 of spec/Props.tla on the recorded results.  The parse result is fed back as returned.
 """
+import itertools
 from .. import ast as A, gen, values as V, campaign, tlc, speccode
 from . import common
+from .. import universes as U
 
 LEVEL = "model_checking"
 CLAUSES = ("C02.canon", "C02.self", "C02.stable")
@@ -43,6 +45,13 @@ def run(ctx):
             for data in (pats if not quick else pats[::2] + [b"\x80", b"\x90", b"\x84", b"\x88", b"\xc0"][:5] if width == 1 else pats):
                 camp.roundtrip_from_bytes(prog, con, data, {})
             camp.sh.maybe_flush()
+        for prog, kw, vals in U.fixed_programs():
+            con = campaign.realizable(prog)
+            for v in vals:
+                camp.roundtrip_from_value(prog, con, v, kw, ("C02.self",))
+            for data in [bytes(t) for n2 in (1, 2, 3) for t in itertools.product([0x00, 0x5a, 0xab, 0xff], repeat=n2)] + [b"abc\x02\xab\xcd\x09", b"\x01\x03\xab\xcd\xef", b"\x02\xab\xcd"]:
+                camp.roundtrip_from_bytes(prog, con, data, kw)
+        camp.sh.maybe_flush()
         gallery_formats(ctx, camp)
         # spec -> code: on the sessions TLC explores on the model's universe, the four-call session from the same input
         # and the three-call session from the value the specification parsed
